@@ -1,7 +1,5 @@
-\* Project.tla as the PINNED TREE behaves (Dev = all named deviations): prints every labelled edge of
-\* the projected state graph (-workers 1) for replay into the real generator (thorough tier: deep histories, sampled).
-\* 2 resolver fields (Query.f1, T.g) x 2 schema files x 3 edit records x 2 helper tokens x 5 import
-\* tokens x both resolver layouts x histories <= 4.  Measured: see notes/C19.md.
+\* Deep histories for seeded sampling (C19 thorough): 2 resolver fields, 2 edit records, helper {hc}, import {asfx},
+\* both resolver layouts, histories <= 5. Measured: 6 388 states, 21 936 edges (2 068 Generate edges), 8 s.
 INIT Init
 NEXT Next
 CONSTANTS
